@@ -76,8 +76,7 @@ class FnTr:
         self.njoin = 0
         self.nloop = 0
         self.loops = []            # (number, text) of the loop definitions
-        self.loop_no = {id(w): i + 1 for i, w in enumerate(
-            sorted((x for x in ast.walk(fdef) if isinstance(x, ast.While)), key=lambda x: (x.lineno, x.col_offset)))}
+        self.loop_no = {id(w): i + 1 for i, w in enumerate(w for w in dfs(fdef) if isinstance(w, ast.While))}
         self.in_loop = 0
         self.check_signature()
         self.parents = {}
@@ -762,9 +761,152 @@ class FnTr:
             body = self.block(self.f.body, env, lambda e: 'G.ret')
             head = ('/-- `%s`: the value returned or the exception class; `fuel` bounds every `while` loop and the length of\n'
                     '    a generator handed to `list`, `rnd` is the script of `random.random()` results -/\n'
-                    'def %s (fuel : Nat) (rnd : Nat → α) %s : Except PyExc (List α) :=\n  PyRtC15.runFn (\n%s)\n' % (
+                    'def %s (fuel : Nat) (rnd : Nat → α) %s : Except PyExc (List α) :=\n  PyRtC15.runFn (α := α) (\n%s)\n' % (
                         self.spec['qualname'], self.name, params, ind(body, 2)))
         return '\n'.join([t for _, t in self.loops] + [head])
+
+
+def dfs(node):
+    """pre-order walk (the order of the text, also after helpers were inlined)"""
+    yield node
+    for ch in ast.iter_child_nodes(node):
+        yield from dfs(ch)
+
+
+# ---------------------------------------------------------------------------------------------- pre-pass
+class _Rename(ast.NodeTransformer):
+    def __init__(self, m):
+        self.m = m
+
+    def visit_Name(self, n):
+        return ast.copy_location(ast.Name(id=self.m.get(n.id, n.id), ctx=n.ctx), n)
+
+
+def _locals_of(fdef):
+    return {a.arg for a in fdef.args.args} | {n.id for n in ast.walk(fdef)
+                                               if isinstance(n, ast.Name) and isinstance(n.ctx, (ast.Store, ast.Del))}
+
+
+def _inlinable(h, caller, n_args):
+    """a private module-level helper that can be inlined at a statement: plain positional parameters, no yield / nested
+    scopes, `return` only as its last top-level statement, and no free name that is a local of the caller"""
+    a = h.args
+    if a.vararg or a.kwarg or a.kwonlyargs or a.posonlyargs or a.defaults or h.decorator_list or len(a.args) != n_args:
+        return False
+    body = h.body
+    for n in ast.walk(h):
+        if n is not h and isinstance(n, (ast.FunctionDef, ast.AsyncFunctionDef, ast.Lambda, ast.ClassDef, ast.Yield,
+                                         ast.YieldFrom, ast.Global, ast.Nonlocal)):
+            return False
+        if isinstance(n, ast.Return) and n is not body[-1]:
+            return False
+        if isinstance(n, ast.Call) and isinstance(n.func, ast.Name) and n.func.id == h.name:
+            return False
+    free = {n.id for n in ast.walk(h) if isinstance(n, ast.Name)} - _locals_of(h)
+    return not (free & _locals_of(caller))
+
+
+def prepass(fdef, tree, notes):
+    """syntactic rewritings into the subset (each exact; skipped when a side condition fails, the construct then reaches the
+    translator and is refused there):
+      inline   `h(a, …)` as a statement / `v = h(a, …)` for a private module-level helper `h` (see `_inlinable`): the
+               arguments are bound to fresh copies of h's parameters, h's locals are renamed apart, `return e` becomes
+               `v = e`
+      for-count `for n in itertools.count(): if not C: break; B`  ->  `n = 0; while C: B; n += 1`  (no other break /
+               continue in B, B does not assign n)"""
+    import copy
+    fdef = copy.deepcopy(fdef)
+    helpers = {n.name: n for n in tree.body if isinstance(n, ast.FunctionDef)}
+    counter = [0]
+
+    def inline_call(call, target):
+        if not (isinstance(call, ast.Call) and isinstance(call.func, ast.Name) and call.func.id in helpers
+                and call.func.id.startswith('_') and not call.keywords
+                and not any(isinstance(x, ast.Starred) for x in call.args)):
+            return None
+        h = helpers[call.func.id]
+        if h.name == fdef.name or not _inlinable(h, fdef, len(call.args)):
+            return None
+        has_ret = isinstance(h.body[-1], ast.Return) and h.body[-1].value is not None
+        if (target is None) == has_ret:          # a value nobody takes / no value to take
+            return None
+        counter[0] += 1
+        m = {v: '%s_%s%d' % (v, h.name.strip('_'), counter[0]) for v in _locals_of(h)}
+        taken = _locals_of(fdef) | set(helpers)
+        if any(v in taken for v in m.values()):
+            return None
+        body = [copy.deepcopy(x) for x in h.body]
+        if body and isinstance(body[0], ast.Expr) and isinstance(body[0].value, ast.Constant) \
+                and isinstance(body[0].value.value, str):
+            body = body[1:]
+        out = [ast.Assign(targets=[ast.Name(id=m[a.arg], ctx=ast.Store())], value=x) for a, x in zip(h.args.args, call.args)]
+        ren = _Rename(m)
+        body = [ren.visit(x) for x in body]
+        if has_ret:
+            ret = body.pop()
+            out += body + [ast.Assign(targets=[target], value=ret.value)]
+        else:
+            if body and isinstance(body[-1], ast.Return):
+                body.pop()
+            out += body
+        notes.append('inline:' + h.name)
+        return [ast.copy_location(x, call) for x in out] or [ast.copy_location(ast.Pass(), call)]
+
+    def for_count(st):
+        if not (isinstance(st, ast.For) and isinstance(st.target, ast.Name) and not st.orelse
+                and isinstance(st.iter, ast.Call) and not st.iter.args and not st.iter.keywords
+                and isinstance(st.iter.func, ast.Attribute) and st.iter.func.attr == 'count'
+                and isinstance(st.iter.func.value, ast.Name) and st.iter.func.value.id == 'itertools'
+                and 'itertools' not in _locals_of(fdef)
+                and any(isinstance(x, ast.Import) and any(a.name == 'itertools' and a.asname is None for a in x.names)
+                        for x in tree.body)
+                and not any(isinstance(x, (ast.FunctionDef, ast.ClassDef)) and x.name == 'itertools' for x in tree.body)):
+            return None
+        b = st.body
+        if not (b and isinstance(b[0], ast.If) and not b[0].orelse and len(b[0].body) == 1
+                and isinstance(b[0].body[0], ast.Break)):
+            return None
+        rest = b[1:]
+        for x in rest:
+            for n in ast.walk(x):
+                if isinstance(n, (ast.Break, ast.Continue)) or (
+                        isinstance(n, ast.Name) and n.id == st.target.id and isinstance(n.ctx, ast.Store)):
+                    return None
+        t = b[0].test
+        cond = t.operand if isinstance(t, ast.UnaryOp) and isinstance(t.op, ast.Not) else ast.UnaryOp(op=ast.Not(), operand=t)
+        v = st.target.id
+        init = ast.Assign(targets=[ast.Name(id=v, ctx=ast.Store())], value=ast.Constant(value=0))
+        step = ast.AugAssign(target=ast.Name(id=v, ctx=ast.Store()), op=ast.Add(), value=ast.Constant(value=1))
+        loop = ast.While(test=cond, body=rest + [step], orelse=[])
+        notes.append('for-count')
+        return [ast.copy_location(x, st) for x in (init, loop)]
+
+    def rewrite_block(block):
+        out = []
+        for st in block:
+            for fld in ('body', 'orelse'):
+                if isinstance(getattr(st, fld, None), list) and isinstance(st, (ast.If, ast.While, ast.For)):
+                    setattr(st, fld, rewrite_block(getattr(st, fld)))
+            new = None
+            if isinstance(st, ast.Expr):
+                new = inline_call(st.value, None)
+            elif isinstance(st, ast.Assign) and len(st.targets) == 1 and isinstance(st.targets[0], ast.Name):
+                new = inline_call(st.value, st.targets[0])
+            elif isinstance(st, ast.For):
+                new = for_count(st)
+            if new is None:
+                out.append(st)
+            else:
+                out.extend(rewrite_block(new) if any(isinstance(x, (ast.If, ast.While, ast.For)) for x in new) and False else new)
+        return out
+
+    for _ in range(4):                            # helpers calling helpers: a few rounds
+        before = len(notes)
+        fdef.body = rewrite_block(fdef.body)
+        if len(notes) == before:
+            break
+    ast.fix_missing_locations(fdef)
+    return fdef
 
 
 # ---------------------------------------------------------------------------------------------- module
@@ -787,6 +929,10 @@ def translate_source(src, specs, module_name, rel):
         try:
             fdef = find_function(tree, spec['qualname'])
             info['lines'] = '%d-%d' % (fdef.lineno, fdef.end_lineno)
+            notes = []
+            fdef = prepass(fdef, tree, notes)
+            if notes:
+                info['prepass'] = ['c15:' + x for x in notes]
             text = FnTr(fdef, spec, tree, emitted).emit()
             emitted.append(spec)
         except (Unsupported, RecursionError) as e:
